@@ -133,7 +133,9 @@ func fpRun(t *testing.T, r *vh.Report, prop string) {
 			fpConfig{"three-of-a-shape", []string{"whileloop", "whileloop", "whileloop", "switch"}})
 	}
 	actions := []string{"keep", "edit", "rename", "remove"}
-	addedPool := [][]string{{}, {"upcount"}, {"strings", "bits"}}
+	// added functions: none, an identical twin of a shape, unrelated ones, and NEAR copies of a shape
+	// ("~shape": the shape with one operator/constant edited) whose names sort before the renamed ones
+	addedPool := [][]string{{}, {"upcount"}, {"strings", "bits"}, {"~upcount"}, {"~strings", "~whileloop"}}
 	caseIdx := 0
 	for ci, cfg := range configs {
 		for code := 0; code < 256; code++ {
@@ -164,6 +166,10 @@ func fpRun(t *testing.T, r *vh.Report, prop string) {
 				}
 				for zi, shape := range added {
 					nn := fmt.Sprintf("Extra%d", zi)
+					if strings.HasPrefix(shape, "~") {
+						newF = append(newF, fpFunc{name: nn, shape: shape, role: "added", src: progfam.Rename(fpEdited(shape[1:]), "F", nn)})
+						continue
+					}
 					newF = append(newF, fpFunc{name: nn, shape: shape, role: "added", src: progfam.Rename(fpBase(shape).Src, "F", nn)})
 				}
 				key := fmt.Sprintf("%s/%s/added=%d", cfg.name, strings.Join(acts, ","), len(added))
